@@ -93,16 +93,21 @@ def run_cli_function(fn, *args, **kwargs):
     return code, out.getvalue(), exc
 
 
-def recording_console(width=250):
+class _AsciiStream(io.StringIO):
+    """a text stream that reports a non-UTF encoding (what rich looks at to decide whether it may print non-ASCII symbols)"""
+    encoding = "ascii"
+
+
+def recording_console(width=250, ascii_stream=False):
     from rich.console import Console
 
-    return Console(record=True, width=width, file=io.StringIO(), force_terminal=False, color_system=None, soft_wrap=True)
+    return Console(record=True, width=width, file=_AsciiStream() if ascii_stream else io.StringIO(), force_terminal=False, color_system=None, soft_wrap=True)
 
 
 def render(fn, *args, **kwargs):
     """call fn(console-arg-position by keyword 'console_pos') and return exported text"""
     pos = kwargs.pop("console_pos", 0)
-    con = recording_console(kwargs.pop("width", 250))
+    con = recording_console(kwargs.pop("width", 250), kwargs.pop("ascii_stream", False))
     a = list(args)
     a.insert(pos, con)
     fn(*a, **kwargs)
